@@ -712,12 +712,11 @@ func (g *Graph) ReflectTargets() []*ssa.Function {
 		if named == nil || named.Obj().Pkg() == nil || !load.IsRepoPkgPath(named.Obj().Pkg().Path()) {
 			continue
 		}
-		for _, recv := range []types.Type{T, types.NewPointer(T)} {
-			if _, isPtr := recv.(*types.Pointer); isPtr {
-				if _, isPtr2 := T.(*types.Pointer); isPtr2 {
-					continue
-				}
-			}
+		recvs := []types.Type{T}
+		if _, isPtr := T.(*types.Pointer); !isPtr {
+			recvs = append(recvs, types.NewPointer(T))
+		}
+		for _, recv := range recvs {
 			ms := g.P.SSA.MethodSets.MethodSet(recv)
 			for i := 0; i < ms.Len(); i++ {
 				m := ms.At(i)
